@@ -5,6 +5,8 @@ import (
 	"fmt"
 	"io"
 	"log"
+	"regexp"
+	"strconv"
 	"strings"
 	"time"
 
@@ -404,19 +406,8 @@ func genEntityOpt(r *vh.Rand, second bool, forcedName string) *entityDecl {
 			return vh.Pick(r, []string{"Active", "active", "inProgress", "Done2", "a_b", "Draft", "onHold"})
 		}, rawKey, lowerKey))
 	}
-	// two statuses that differ only in case: distinct symbols for the compiler, a conflict for
-	// protodesc.NewFiles (open enum, names compared after prefix trimming in PascalCase): known finding
-	if !second && r.Chance(3) {
-		base := d.Status[r.Intn(len(d.Status))]
-		variant := strings.ToUpper(base[:1]) + strings.ToLower(base[1:])
-		if variant == base {
-			variant = strings.ToUpper(base)
-		}
-		if variant != base && !ss[rawKey(variant)] {
-			ss[rawKey(variant)] = true
-			d.Status = append(d.Status, variant)
-		}
-	}
+	// (two statuses that differ only in case are one protobuf name twice: a compile error since fix
+	// 4fb405b, malformed class status-case-variant)
 	// edge cases of visitEnumNode/addValue: a first status ending in UNSPECIFIED takes slot 0,
 	// a status that already carries the prefix keeps its name
 	if r.Chance(8) {
@@ -434,7 +425,7 @@ func genEntityOpt(r *vh.Rand, second bool, forcedName string) *entityDecl {
 	if r.Chance(25) {
 		d.StatusNum = make([]int, len(d.Status))
 		for i := range d.Status {
-			if r.Chance(60) && !(i == 0 && strings.HasSuffix(d.Status[0], "UNSPECIFIED")) {
+			if r.Chance(60) && !(i == 0 && (d.Status[0] == "UNSPECIFIED" || strings.HasSuffix(d.Status[0], "_STATUS_UNSPECIFIED"))) {
 				d.StatusNum[i] = vh.Pick(r, []int{1, 2, 3, 5, 7, 9, 12, 40})
 			}
 		}
@@ -448,7 +439,7 @@ func genEntityOpt(r *vh.Rand, second bool, forcedName string) *entityDecl {
 				return "Type"
 			}
 			if r.Chance(70) {
-				return vh.Pick(r, []string{"Create", "Update", "Archive", "Delete", "Created", "DoThing", "Renamed", "V2Migrated"})
+				return vh.Pick(r, []string{"Create", "Update", "Archive", "Delete", "Created", "DoThing", "Renamed", "V2Migrated", "Do_Thing", "Up_2", "D2", "X_"})
 			}
 			return genIdent(r, 2)
 		}, rawKey, func(s string) string { return snakeKey(strcase.ToLowerCamel(s)) }, lowerKey)
@@ -465,7 +456,9 @@ func genEntityOpt(r *vh.Rand, second bool, forcedName string) *entityDecl {
 		if r.Chance(50) && !svcNames["default"] {
 			svcNames["default"] = true
 		} else {
-			n := svcNames.fresh(func() string { return vh.Pick(r, []string{"Special", "OtherCommand", "Admin", "Ops", "BulkCommand", "Extra"}) },
+			n := svcNames.fresh(func() string {
+				return vh.Pick(r, []string{"Special", "OtherCommand", "Admin", "Ops", "BulkCommand", "Extra", "my_cmd", "Batch_2", "ops2"})
+			},
 				func(s string) string { return strings.TrimSuffix(s, "Command") })
 			c.Name = &n
 		}
@@ -479,7 +472,7 @@ func genEntityOpt(r *vh.Rand, second bool, forcedName string) *entityDecl {
 		for mk := r.Range(0, 2); mk > 0; mk-- {
 			m := eMethod{Verb: vh.Pick(r, []int{1, 2, 2, 3, 4, 5})}
 			m.Name = methodNames.fresh(func() string {
-				return vh.Pick(r, []string{"DoIt", "Create", "Update", "Archive", "Rename", "Touch", "Bump", "SetName", "Op"}) + vh.Pick(r, []string{"", "", "Foo", "2", "Thing"})
+				return vh.Pick(r, []string{"DoIt", "Create", "Update", "Archive", "Rename", "Touch", "Bump", "SetName", "Op", "do_it", "Do_It", "bump"}) + vh.Pick(r, []string{"", "", "Foo", "2", "Thing", "_x"})
 			}, rawKey)
 			m.Request = genFields(r, 0, 3)
 			if r.Chance(15) {
@@ -520,7 +513,9 @@ func genEntityOpt(r *vh.Rand, second bool, forcedName string) *entityDecl {
 	for k := r.Range(0, 2); k > 0; k-- {
 		name := ""
 		if r.Chance(60) || sums[rawKey("")] {
-			name = sums.fresh(func() string { return vh.Pick(r, []string{"Small", "big_view", "small", "Overview", "list_item", "V2", "Mini"}) }, rawKey, camelKey)
+			name = sums.fresh(func() string {
+				return vh.Pick(r, []string{"Small", "big_view", "small", "Overview", "list_item", "V2", "Mini"})
+			}, rawKey, camelKey)
 		} else {
 			sums[rawKey("")] = true
 			sums[camelKey("Summary")] = true
@@ -537,7 +532,9 @@ func genEntityOpt(r *vh.Rand, second bool, forcedName string) *entityDecl {
 	if r.Chance(35) {
 		sn := nameSet{}
 		for k := r.Range(1, 2); k > 0; k-- {
-			name := sn.fresh(func() string { return vh.Pick(r, []string{"Address", "Money", "Tag", "Meta", "Dimensions", "Contact"}) + d.schemaSuffix() }, rawKey)
+			name := sn.fresh(func() string {
+				return vh.Pick(r, []string{"Address", "Money", "Tag", "Meta", "Dimensions", "Contact"}) + d.schemaSuffix()
+			}, rawKey)
 			sc := eSchema{Name: name, Fields: genFields(r, 0, 3, "keys")}
 			if len(d.Schemas) > 0 && r.Chance(40) {
 				sc.Fields = append(sc.Fields, uField{Name: "prev", Obj: d.Schemas[0].Name, PType: 11, J5Kind: "object"})
@@ -654,7 +651,7 @@ func squash(s string) string { return strings.ToLower(strings.ReplaceAll(s, "_",
 // with the first one's.
 func genSecond(r *vh.Rand, first *entityDecl) *entityDecl {
 	for {
-		d := genEntityOpt(r, true, "")
+		d := genPlain(r)
 		a, b := squash(first.Name), squash(d.Name)
 		if a == "" || b == "" || strings.HasPrefix(a, b) || strings.HasPrefix(b, a) {
 			continue
@@ -677,7 +674,9 @@ func genSecond(r *vh.Rand, first *entityDecl) *entityDecl {
 // class it must report (compared with the model's error class in c17_check).
 // 1 unknown default status, 2 duplicate summary, 3 type not found, 4 optional+required,
 // 5 path parameter that is not a request field, 6 link error "symbol already defined",
-// 7 parser validation "value is required" (entity without status).
+// 7 parser validation "value is required" (entity without status), 8 list-request settings,
+// 9 a name the expansion reserves (positioned diagnostic since the reserved-names fix: walker error of
+// entityNode.checkReservedNames, aborts the walk / conversion error of visitOneofNode, collected).
 type negClass struct {
 	kind string
 	errc int
@@ -760,10 +759,28 @@ var negClasses = []negClass{
 	{"dup-data", 6, func(r *vh.Rand, d *entityDecl) {
 		d.Data = append(d.Data, plainString("twice"), plainString(vh.Pick(r, []string{"twice", "Twice"})))
 	}},
-	{"dup-status", 6, func(r *vh.Rand, d *entityDecl) {
+	{"status-case-variant", 10, func(r *vh.Rand, d *entityDecl) {
+		// Active next to ACTIVE, A_B next to AB: distinct symbols, one canonical protobuf name
+		base := d.Status[r.Intn(len(d.Status))]
+		variant := strings.ToUpper(base[:1]) + strings.ToLower(base[1:])
+		if variant == base {
+			variant = strings.ToUpper(base)
+		}
+		if variant == base {
+			variant = base + "_"
+		}
+		d.Status = append(d.Status, variant)
+	}},
+	{"block-enum-option-case-variant", 10, func(r *vh.Rand, d *entityDecl) {
+		d.Schemas = append(d.Schemas, eSchema{Kind: 2, Name: "CaseClash", Options: []string{"Active", vh.Pick(r, []string{"ACTIVE", "active", "ACTIVE_", "Active"})}})
+	}},
+	{"inline-enum-option-case-variant", 10, func(r *vh.Rand, d *entityDecl) {
+		d.Data = append(d.Data, uField{Name: "inlineLevel", Inline: "enum", J5Kind: "enum", PType: 14, InOptions: []string{"LOW", vh.Pick(r, []string{"low", "Low", "LOW_"})}})
+	}},
+	{"dup-status", 10, func(r *vh.Rand, d *entityDecl) {
 		d.Status = append(d.Status, d.Status[r.Intn(len(d.Status))])
 	}},
-	{"status-unspecified-not-first", 6, func(r *vh.Rand, d *entityDecl) {
+	{"status-unspecified-not-first", 10, func(r *vh.Rand, d *entityDecl) {
 		// only a FIRST option ending in UNSPECIFIED takes slot 0; later it repeats the generated zero value
 		d.Status = []string{vh.Pick(r, []string{"ACTIVE", "NEW"}), "DONE", "UNSPECIFIED"}
 		d.StatusNum = nil
@@ -771,7 +788,7 @@ var negClasses = []negClass{
 			d.Query.DefaultStatus = nil
 		}
 	}},
-	{"unspecified-first-with-number", 6, func(r *vh.Rand, d *entityDecl) {
+	{"unspecified-first-with-number", 10, func(r *vh.Rand, d *entityDecl) {
 		// a first status ending in UNSPECIFIED takes slot 0 only when it declares no number
 		d.Status = []string{"UNSPECIFIED", "ACTIVE", "DONE"}
 		d.StatusNum = []int{vh.Pick(r, []int{1, 3, 7}), 0, 0}
@@ -794,7 +811,7 @@ var negClasses = []negClass{
 		d.Data = append(d.Data, uField{Name: "inlineTwins", Inline: "object", J5Kind: "object", PType: 11,
 			InFields: []uField{plainString("twin"), plainString(vh.Pick(r, []string{"twin", "Twin"}))}})
 	}},
-	{"inline-oneof-option-type", 6, func(r *vh.Rand, d *entityDecl) {
+	{"inline-oneof-option-type", 9, func(r *vh.Rand, d *entityDecl) {
 		// the option "type" next to the proto oneof "type" of the inline wrapper (any j5 oneof: C02/C07 territory)
 		d.Data = append(d.Data, uField{Name: "inlineChoice", Inline: "oneof", J5Kind: "oneof", PType: 11,
 			InFields: []uField{plainString("a"), plainString("type")}})
@@ -819,7 +836,7 @@ var negClasses = []negClass{
 		inner := uField{Name: "inner", Inline: "object", J5Kind: "object", PType: 11, Container: vh.Pick(r, []string{"", "array", "map"}), InFields: []uField{in}}
 		d.Data = append(d.Data, uField{Name: "treeBoth", Inline: "object", J5Kind: "object", PType: 11, InFields: []uField{inner}})
 	}},
-	{"tree-oneof-option-type", 6, func(r *vh.Rand, d *entityDecl) {
+	{"tree-oneof-option-type", 9, func(r *vh.Rand, d *entityDecl) {
 		inner := uField{Name: "pick", Inline: "oneof", J5Kind: "oneof", PType: 11, InFields: []uField{plainString("a"), plainString("type")}}
 		d.Data = append(d.Data, uField{Name: "treeChoice", Inline: "object", J5Kind: "object", PType: 11, InFields: []uField{inner}})
 	}},
@@ -863,6 +880,48 @@ var negClasses = []negClass{
 	{"dup-method", 6, func(r *vh.Rand, d *entityDecl) {
 		d.Commands = append(d.Commands, eCommand{Name: ptr("Twins"), Methods: []eMethod{emptyMethod("SameOp", "a"), emptyMethod("SameOp", "b")}})
 	}},
+	// reserved names (class 9), alone and next to a second fault: the walker's check comes before every
+	// other walker error of the declaration and aborts the conversion; the conversion's own reserved-name
+	// error (oneof option `type`) is reported together with the other conversion errors and classified first
+	{"block-oneof-option-type", 9, func(r *vh.Rand, d *entityDecl) {
+		d.Schemas = append(d.Schemas, eSchema{Kind: 1, Name: "BlockChoice", Fields: []uField{plainString("a"), plainString(vh.Pick(r, []string{"type", "Type", "TYPE"}))}})
+	}},
+	{"reserved-key+unknown-default-status", 9, func(r *vh.Rand, d *entityDecl) {
+		k := eKey{uField: genKeyTyped(r, vh.Pick(r, []string{"page", "query", "Page", "QUERY"}))}
+		k.Optional = false
+		if r.Bool() {
+			k.Primary = true
+		} else {
+			k.Shard = true
+		}
+		d.Keys = append(d.Keys, k)
+		if d.Query == nil {
+			d.Query = &eQuery{}
+		}
+		d.Query.DefaultStatus = append(d.Query.DefaultStatus, "NO_SUCH_STATUS")
+	}},
+	{"reserved-summary-field+dangling-reference", 9, func(r *vh.Rand, d *entityDecl) {
+		d.Summaries = append(d.Summaries, eSummary{Name: "Reserved", Fields: []uField{plainString("fine"), plainString(vh.Pick(r, []string{"upsert", "Upsert"}))}})
+		d.Data = append(d.Data, uField{Name: "dangling", Obj: "NoSuchType", PType: 11, J5Kind: "object"})
+	}},
+	{"reserved-event-name+optional-required", 9, func(r *vh.Rand, d *entityDecl) {
+		d.Events = append(d.Events, eEvent{Name: "Type"})
+		f := genScalarField(r, "bothWays")
+		f.Required, f.Optional = true, true
+		d.Data = append(d.Data, f)
+	}},
+	{"oneof-option-type+dangling-reference", 9, func(r *vh.Rand, d *entityDecl) {
+		d.Data = append(d.Data, uField{Name: "dangling", Obj: "NoSuchType", PType: 11, J5Kind: "object"},
+			uField{Name: "inlineChoice", Inline: "oneof", J5Kind: "oneof", PType: 11, InFields: []uField{plainString("a"), plainString("type")}})
+	}},
+	{"unknown-default-status+oneof-option-type", 1, func(r *vh.Rand, d *entityDecl) {
+		// a walker error aborts before the conversion reports anything
+		d.Schemas = append(d.Schemas, eSchema{Kind: 1, Name: "BlockChoice", Fields: []uField{plainString("type")}})
+		if d.Query == nil {
+			d.Query = &eQuery{}
+		}
+		d.Query.DefaultStatus = append(d.Query.DefaultStatus, "NO_SUCH_STATUS")
+	}},
 	{"no-status", 7, func(r *vh.Rand, d *entityDecl) {
 		d.Status, d.StatusNum = nil, nil
 		if d.Query != nil {
@@ -871,9 +930,24 @@ var negClasses = []negClass{
 	}},
 }
 
+func (d *entityDecl) usesReservedName() bool {
+	return d.pathKeyReserved() || d.namedLikeResponseField() || d.eventNamedType() || d.summaryUpsert()
+}
+
+// genPlain: a declaration without any name the expansion reserves (`second`: no reserved key /
+// summary-field / event names; the entity name is redrawn)
+func genPlain(r *vh.Rand) *entityDecl {
+	for {
+		d := genEntityOpt(r, true, "")
+		if !d.usesReservedName() {
+			return d
+		}
+	}
+}
+
 func genMalformed(r *vh.Rand, i int) (*entityDecl, negClass) {
 	c := negClasses[i%len(negClasses)]
-	d := genEntityOpt(r, true, "") // `second`: no reserved key / summary-field names in this stream
+	d := genPlain(r)
 	d.second = false
 	c.make(r, d)
 	return d, c
@@ -960,7 +1034,7 @@ func runC17(cfg *vh.Config) error {
 	}
 	// out of the quantifier (1..n keys) but accepted by the compiler and the model alike
 	for i := 0; i < cfg.Scale(2, 20); i++ {
-		d := genEntityOpt(r, true, "")
+		d := genPlain(r)
 		d.second = false
 		d.Keys = nil
 		decls = append(decls, &fileDecl{Ents: []*entityDecl{d}})
@@ -971,7 +1045,7 @@ func runC17(cfg *vh.Config) error {
 	// (j5.list.v1.list_request) on MethodOptions panicked) unless a walker error comes first; a second
 	// conversion error is reported together with it and decides the class
 	for i := 0; i < cfg.Scale(4, 40); i++ {
-		d := genEntityOpt(r, true, "")
+		d := genPlain(r)
 		d.second = false
 		if d.Query == nil {
 			d.Query = &eQuery{}
@@ -990,6 +1064,50 @@ func runC17(cfg *vh.Config) error {
 			kind = "list-request-settings+dangling-reference"
 		}
 		decls = append(decls, &fileDecl{Ents: []*entityDecl{d}})
+		kinds = append(kinds, kind)
+	}
+	// two declarations in one file, a reserved name in one and another fault in the other: the walker's
+	// first error aborts the conversion whatever was collected before (class of the walker error); a
+	// conversion error of the first declaration is reported together with the reserved oneof option of the
+	// second (classified "reserved name")
+	for i := 0; i < cfg.Scale(4, 40); i++ {
+		a := genPlain(r)
+		a.second = false
+		b := genSecond(r, a)
+		kind := ""
+		switch i % 4 {
+		case 0: // conversion error first, walker reserved name second
+			a.Data = append(a.Data, uField{Name: "dangling", Obj: "NoSuchType", PType: 11, J5Kind: "object"})
+			b.Events = append(b.Events, eEvent{Name: "Type"})
+			wantErr[len(decls)] = 9
+			kind = "two-entities-dangling-reference+reserved-event-name"
+		case 1: // walker error first: it wins
+			if a.Query == nil {
+				a.Query = &eQuery{}
+			}
+			a.Query.DefaultStatus = append(a.Query.DefaultStatus, "NO_SUCH_STATUS")
+			b.Summaries = append(b.Summaries, eSummary{Name: "Reserved", Fields: []uField{plainString("upsert")}})
+			wantErr[len(decls)] = 1
+			kind = "two-entities-unknown-default-status+reserved-summary-field"
+		case 2: // reserved walker name first, unknown status second
+			k := eKey{uField: genKeyTyped(r, "query")}
+			k.Optional, k.Primary = false, true
+			a.Keys = append(a.Keys, k)
+			if b.Query == nil {
+				b.Query = &eQuery{}
+			}
+			b.Query.DefaultStatus = append(b.Query.DefaultStatus, "NO_SUCH_STATUS")
+			wantErr[len(decls)] = 9
+			kind = "two-entities-reserved-key+unknown-default-status"
+		default: // two conversion errors, one of them the reserved option
+			f := genScalarField(r, "bothWays")
+			f.Required, f.Optional = true, true
+			a.Data = append(a.Data, f)
+			b.Data = append(b.Data, uField{Name: "inlineChoice", Inline: "oneof", J5Kind: "oneof", PType: 11, InFields: []uField{plainString("type")}})
+			wantErr[len(decls)] = 9
+			kind = "two-entities-optional-required+oneof-option-type"
+		}
+		decls = append(decls, &fileDecl{Ents: []*entityDecl{a, b}})
 		kinds = append(kinds, kind)
 	}
 	nBad := cfg.Scale(2*len(negClasses), 14*len(negClasses))
@@ -1053,6 +1171,11 @@ func runC17(cfg *vh.Config) error {
 			res.Count("compiled_ok")
 			if malformed {
 				res.Fail(vh.Failure{Case: caseNo, Stream: "entity", Sig: "C17 malformed entity (" + kinds[i] + ") accepted", Clause: "tie, not a clause of C17 (the declaration is outside the quantifier): the model of the compiler predicts rejection (link error / walker error) and the real compiler accepted", Input: in, Got: "compiled"})
+				// what it compiled to is still judged against the clauses (an accepted optional primary
+				// key shows as "primary key field is not required")
+				if len(d.Ents) == 1 {
+					oracleC17(res, caseNo, d.Ents[0], out.dump, in)
+				}
 			} else if len(d.Ents) == 1 {
 				oracleC17(res, caseNo, d.Ents[0], out.dump, in)
 			}
@@ -1064,39 +1187,34 @@ func runC17(cfg *vh.Config) error {
 				res.Fail(vh.Failure{Case: caseNo, Stream: "entity", Sig: "C17 malformed entity (" + kinds[i] + ") rejected with an unexpected error class", Clause: "tie, not a clause of C17 (the declaration is outside the quantifier): error class of a rejected declaration differs from the model's", Input: in, Got: out.err.Error()})
 			}
 			if inQuant {
-				// a declaration inside the quantifier that the compiler REJECTS contradicts the first
-				// clause ("each entity declaration yields ..."): every name the user chose is legitimate
-				// on its own (distinct per scope), so a failure is the expansion's.  A known signature
-				// binds the declaration feature AND the symbol the link error names, so another
-				// "already defined" error in such a file is still reported
+				// a declaration inside the quantifier is rejected only for a RESERVED name (the five field
+				// names the expansion puts next to the user's: C17_fails_exactly_on_reserved), and then by
+				// the diagnostic that names it at its position in the source (fix: checkReservedNames /
+				// visitOneofNode).  Anything else contradicts "each entity declaration yields ..."
 				msg := out.err.Error()
-				sig := "C17 admissible entity fails to compile: " + errClass(out.err)
+				usesReserved := anyEnt(d, (*entityDecl).pathKeyReserved) || anyEnt(d, (*entityDecl).namedLikeResponseField) ||
+					anyEnt(d, (*entityDecl).eventNamedType) || anyEnt(d, (*entityDecl).summaryUpsert)
 				clause := "each entity declaration yields Keys, Data, Status, State, EventType and Event schemas, a query service ..., every declared command service, a publish topic and one upsert topic per summary (the compiler rejects the declaration)"
-				hasSym := func(suffixes ...string) bool {
-					for _, sfx := range suffixes {
-						if strings.Contains(msg, sfx+"\" already defined") || strings.Contains(msg, sfx+" already defined") {
-							return true
-						}
-					}
-					return false
-				}
+				sig := ""
 				switch {
+				case usesReserved && errc == 9:
+					if why := reservedDiagnosticOK(msg, text); why != "" {
+						sig = "C17 reserved-name diagnostic is not positioned at the name in the source: " + why
+						clause = "tie / C07: a declaration that uses a name the expansion reserves is rejected by a diagnostic at that name's source position"
+					} else {
+						res.Count("reserved_name_rejected_at_its_position")
+					}
+				case usesReserved && errc == 6:
+					sig = "C17 reserved name (key page|query, summary field upsert, event Type, entity Page|Events) is not diagnosed: link error symbol already defined in a generated file"
+					clause = "each entity declaration yields ... (a name the expansion reserves must be rejected by name at its source position, not fail at link time in a generated file)"
 				case strings.Contains(msg, "not found") && endsCap(d.Ents[0].Name):
 					sig = "C17 entity name ending in a capital fails to compile: type <Name>State/Event/EventType not found (entity.go naming)"
-				case errc == 6 && anyEnt(d, (*entityDecl).pathKeyReserved) && hasSym("Request.page", "Request.query"):
-					sig = "C17 primary/shard key named page or query collides with the pagination field acceptQuery adds to the List/Events request: link error symbol already defined"
-					clause = "each entity declaration yields ... a query service with Get, List and Events methods (1..n keys of any type with any mix of markers: the compiler rejects the declaration)"
-				case errc == 6 && anyEnt(d, (*entityDecl).namedLikeResponseField) && hasSym("ListResponse.page", "GetResponse.events"):
-					sig = "C17 entity named page (or events with eventsInGet) collides with the page (events) property next to the entity's own property in the generated List (Get) response: link error symbol already defined"
-					clause = "each entity declaration yields ... a query service with Get, List and Events methods (any entity name casing: the compiler rejects the declaration)"
-				case errc == 6 && anyEnt(d, (*entityDecl).eventNamedType) && hasSym("EventType.type"):
-					sig = "C17 event whose oneof option is named type collides with the proto oneof type of the EventType wrapper: link error symbol already defined"
-					clause = "each entity declaration yields ... EventType ...; the event oneof has exactly one option per declared event (0..n events: the compiler rejects the declaration)"
-				case errc == 6 && anyEnt(d, (*entityDecl).summaryUpsert) && hasSym("Message.upsert"):
-					sig = "C17 summary field named upsert collides with the metadata field acceptSummaryTopics prepends: link error symbol already defined"
-					clause = "each entity declaration yields ... one upsert topic per summary (0..n summaries: the compiler rejects the declaration)"
+				default:
+					sig = "C17 admissible entity fails to compile: " + errClass(out.err)
 				}
-				res.Fail(vh.Failure{Case: caseNo, Stream: "entity", Sig: sig, Clause: clause, Input: in, Got: msg})
+				if sig != "" {
+					res.Fail(vh.Failure{Case: caseNo, Stream: "entity", Sig: sig, Clause: clause, Input: in, Got: msg})
+				}
 			}
 		}
 		// second observable: the client API's StateEntity, derived by the real j5client
@@ -1239,6 +1357,38 @@ func (d *entityDecl) summaryUpsert() bool {
 	return false
 }
 
+var reservedPosRe = regexp.MustCompile(`\.j5s:? ?(\d+):(\d+)`)
+var reservedNameRe = regexp.MustCompile(`name "([^"]+)" is reserved: `)
+
+// reservedDiagnosticOK: the reserved-name error names a position inside the source text, and the line it
+// names (for an option of a block oneof: that line or a later one) carries the reserved name. "" = fine.
+func reservedDiagnosticOK(msg, text string) string {
+	pm := reservedPosRe.FindStringSubmatch(msg)
+	nm := reservedNameRe.FindStringSubmatch(msg)
+	if pm == nil {
+		return "no line:column"
+	}
+	if nm == nil {
+		return "the reserved name is not quoted"
+	}
+	lines := strings.Split(text, "\n")
+	ln, _ := strconv.Atoi(pm[1])
+	if ln < 1 || ln > len(lines) {
+		return "line outside the file"
+	}
+	if strings.Contains(lines[ln-1], nm[1]) {
+		return ""
+	}
+	if strings.Contains(msg, "oneof option name") {
+		for _, l := range lines[ln-1:] {
+			if strings.Contains(l, nm[1]) {
+				return ""
+			}
+		}
+	}
+	return "the named line does not carry the name"
+}
+
 // errClassNum mirrors Entity.err_class (coq/model/Entity.v).
 func errClassNum(err error) int {
 	switch errClass(err) {
@@ -1258,6 +1408,10 @@ func errClassNum(err error) int {
 		return 7
 	case "list request on a method":
 		return 8
+	case "reserved name":
+		return 9
+	case "enum option conflict":
+		return 10
 	}
 	return 99
 }
@@ -1269,6 +1423,20 @@ func endsCap(s string) bool {
 func errClass(err error) string {
 	s := err.Error()
 	switch {
+	case strings.Contains(s, "is reserved: "):
+		// looked for FIRST: a walker error stands alone; the conversion's reserved-name error is
+		// reported together with its other errors (Entity.compile_file does the same)
+		return "reserved name"
+	case strings.Contains(s, "conflicts with option") || (strings.Contains(s, "enum ") && strings.Contains(s, ": option ") && strings.Contains(s, "is defined more than once")):
+		// second: enum options (statuses) whose protobuf canonical names collide (fix 4fb405b), a
+		// conversion error reported together with the others
+		return "enum option conflict"
+	case strings.Contains(s, "is already used by an earlier"), strings.Contains(s, "is defined more than once"):
+		// a name defined twice in one scope: reported from the j5s source since fix 5b3591a (properties /
+		// options with one protobuf name, a type defined twice; the link step reports the rest: "already
+		// defined", below). Looked for before "not found": a type defined twice makes later checks that
+		// look the type up fail as a consequence (e.g. the default filters of the status field)
+		return "name conflict"
 	case strings.Contains(s, "cannot be both required and optional"):
 		return "required and optional"
 	case strings.Contains(s, "missing field") && strings.Contains(s, "in request"):
@@ -1384,7 +1552,10 @@ func oracleC17(res *vh.Result, caseNo int, d *entityDecl, dump *dumped, in any) 
 			fail("C17 status enum does not start with UNSPECIFIED = 0", "statuses are numbered in declaration order after UNSPECIFIED", fmt.Sprint(vals))
 		}
 		decl := d.Status
-		if len(decl) > 0 && strings.HasSuffix(decl[0], "UNSPECIFIED") && (len(d.StatusNum) == 0 || d.StatusNum[0] == 0) {
+		// a first status that SPELLS the zero value (UNSPECIFIED / <PREFIX>UNSPECIFIED) is the zero value
+		// (isExplicitZero, fix a65e1f2; X_UNSPECIFIED is an ordinary status)
+		statusPrefix := strcase.ToScreamingSnake(d.Name) + "_STATUS_"
+		if len(decl) > 0 && (decl[0] == "UNSPECIFIED" || decl[0] == statusPrefix+"UNSPECIFIED") && (len(d.StatusNum) == 0 || d.StatusNum[0] == 0) {
 			decl = decl[1:]
 		}
 		if len(vals) != len(decl)+1 {
